@@ -41,11 +41,11 @@ func any(ev map[string]int, ks ...string) bool {
 var profMap = &Profile{
 	Name: "C01-map", MinOps: 1, MaxOps: 60, NColls: 3, MemPct: 25, BigKeys: true, BigVals: true, EndOnly: 25,
 	Kinds: []wk{{OpSet, 30}, {OpSetR, 6}, {OpDel, 14}, {OpGet, 8}, {OpGetItem, 6}, {OpExist, 3}, {OpMin, 3}, {OpMax, 3},
-		{OpTotals, 3}, {OpBadSet, 3}, {OpFlush, 8}, {OpEvict, 7}, {OpReopen, 5}},
+		{OpTotals, 3}, {OpBadSet, 3}, {OpFlush, 8}, {OpEvict, 7}, {OpReopen, 5}, {OpMisc, 2}},
 }
 
 var profDurable = &Profile{
-	Name: "C02-durable", MinOps: 2, MaxOps: 50, NColls: 3, BigKeys: true, BigVals: true, Hostile: true, HugeNames: true,
+	Name: "C02-durable", MinOps: 2, MaxOps: 50, NColls: 3, BigKeys: true, BigVals: true, Hostile: true, HugeNames: true, Bulk: 2,
 	Kinds: []wk{{OpSet, 30}, {OpSetR, 4}, {OpDel, 12}, {OpFlush, 14}, {OpEvict, 4}, {OpReopen, 9}, {OpSetColl, 4}, {OpRmColl, 3}, {OpNames, 1}, {OpRevert, 3}, {OpWrite, 2}, {OpGet, 3}},
 }
 
@@ -70,7 +70,7 @@ var profMonitor = &Profile{
 	Name: "C09-monitor", MinOps: 3, MaxOps: 45, NColls: 2, Snaps: true, BigVals: true, EndOnly: 50, Hostile: true,
 	Kinds: []wk{{OpSet, 26}, {OpSetR, 2}, {OpDel, 8}, {OpFlush, 12}, {OpRevert, 6}, {OpReopen, 6}, {OpEvict, 6}, {OpGet, 4}, {OpGetItem, 3}, {OpExist, 1},
 		{OpMin, 2}, {OpMax, 1}, {OpTotals, 1}, {OpLen, 1}, {OpVisit, 8}, {OpBlock, 1}, {OpRandom, 1}, {OpSnap, 4}, {OpSnapClose, 3}, {OpSnapRev, 2},
-		{OpCopyTo, 3}, {OpSetColl, 2}, {OpRmColl, 1}, {OpWrite, 3}, {OpSnapBad, 3}, {OpNames, 1}},
+		{OpCopyTo, 3}, {OpSetColl, 2}, {OpRmColl, 1}, {OpWrite, 3}, {OpSnapBad, 3}, {OpNames, 1}, {OpMisc, 5}},
 }
 
 var profRecycle = &Profile{
@@ -80,7 +80,7 @@ var profRecycle = &Profile{
 }
 
 var profCopy = &Profile{
-	Name: "C11-copy", MinOps: 3, MaxOps: 40, NColls: 3, MemPct: 15, Cmps: true, Snaps: true, BigVals: true, BigKeys: true,
+	Name: "C11-copy", MinOps: 3, MaxOps: 40, NColls: 3, MemPct: 15, Cmps: true, Snaps: true, BigVals: true, BigKeys: true, Bulk: 1,
 	Kinds: []wk{{OpSet, 40}, {OpDel, 6}, {OpFlush, 8}, {OpEvict, 8}, {OpReopen, 4}, {OpSnap, 4}, {OpSetColl, 4}, {OpCopyTo, 22}},
 }
 
@@ -90,12 +90,12 @@ var profNames = &Profile{
 }
 
 var profTree = &Profile{
-	Name: "C13-tree", MinOps: 2, MaxOps: 45, NColls: 2, MemPct: 25, Cmps: true, Monotone: 70, Framed: 20,
+	Name: "C13-tree", MinOps: 2, MaxOps: 45, NColls: 2, MemPct: 25, Cmps: true, Monotone: 70, Framed: 20, Bulk: 1,
 	Kinds: []wk{{OpSet, 44}, {OpSetR, 4}, {OpDel, 16}, {OpFlush, 10}, {OpEvict, 8}, {OpReopen, 6}, {OpVisit, 4}},
 }
 
 var profFormat = &Profile{
-	Name: "C14-format", MinOps: 2, MaxOps: 40, NColls: 4, BigKeys: true, BigVals: true, Hostile: true, Cmps: true, HugeNames: true,
+	Name: "C14-format", MinOps: 2, MaxOps: 40, NColls: 4, BigKeys: true, BigVals: true, Hostile: true, Cmps: true, HugeNames: true, Bulk: 2,
 	Kinds: []wk{{OpSet, 36}, {OpSetR, 3}, {OpDel, 10}, {OpFlush, 18}, {OpEvict, 4}, {OpReopen, 6}, {OpSetColl, 6}, {OpRmColl, 3}, {OpCopyTo, 4}, {OpRevert, 3}},
 }
 
